@@ -148,22 +148,42 @@ def run(ctx):
         ctx.inst("C03/D5", "MATCH consumes only artifacts whose digests equal the destination's", eq,
                  "insertion dominated by `source description == destination description` (whole digest maps): %s" % eq, it["at"])
     # ---- D3
-    comp = [(i, t) for (i, t) in b.calls_named("glob::Pattern::new") if not b.blocks[i].get("inst")]
-    disp = [e for (e, tb, fa) in b.all_edge_facts() if fa[0] == "variant" and (fa[3] or "").endswith("ArtifactRule") and not b.blocks[e[0]].get("inst")
-            and fa[2] in ("Create", "Delete", "Modify", "Allow", "Disallow", "Match")]
+    def on_match_arm(i):
+        return any(fa[0] == "variant" and fa[2] == "Match" and (fa[3] or "").endswith("ArtifactRule") for (e, fa) in b.facts_dominating(i))
+    # the dispatch switch: the ArtifactRule variant test with the most distinct arms
+    by_switch = {}
+    for (e, tb, fa) in b.all_edge_facts():
+        if fa[0] == "variant" and (fa[3] or "").endswith("ArtifactRule"):
+            by_switch.setdefault(e[0], set()).add(fa[2])
+    disp_sw = max(by_switch, key=lambda x: len(by_switch[x])) if by_switch else None
+    comp = [(i, t) for (i, t) in b.calls_named("glob::Pattern::new") if not on_match_arm(i)]
     if not comp:
-        ctx.bad("C03/D3", "pattern compiled in the rule engine", "no glob::Pattern::new call in apply_rules_on_link itself: an uninterpretable pattern can only "
+        ctx.bad("C03/D3", "pattern compiled in the rule engine", "no glob::Pattern::new call in the per-rule loop of apply_rules_on_link: an uninterpretable pattern can only "
                 "surface inside a filter closure, where it cannot fail verification")
     for (ci, ct) in comp:
-        # Err outcome propagated
-        ok_e, err_e = [], []
+        # the edges on which the compile is known to have succeeded: `?` (Continue of branch) or a match on Ok
+        ok_e = []
         for (e, tb, fa) in b.all_edge_facts():
-            if fa[0] == "variant" and fa[2] in ("Continue", "Break"):
-                lv = b.trace(fa[1], (("v", fa[2]), F0) if fa[2] == "Continue" else (("v", "Break"), F0, ERR, F0))
-                if fa[2] == "Continue" and lv and all(l.kind == "call" and l.data[0] == ci and l.path == (OK, F0) for l in lv):
+            if fa[0] == "variant" and fa[2] == "Continue":
+                lv = b.trace(fa[1], (("v", "Continue"), F0))
+                if lv and all(l.kind == "call" and l.data[0] == ci and l.path == (OK, F0) for l in lv):
                     ok_e.append(e)
-        ctx.inst("C03/D3", "pattern compile outcome is propagated with `?`", bool(ok_e),
-                 "Ok-outcome edge(s) of glob::Pattern::new: %s (the Err outcome returns an error)" % ok_e, ct["at"])
+            elif fa[0] == "variant" and fa[2] == "Ok":
+                lv = b.trace(fa[1])
+                if lv and all(l.kind == "call" and l.data[0] == ci and not l.path for l in lv):
+                    ok_e.append(e)
+        # the Err outcome reaches no further rule: with the Ok edges removed, neither the dispatch nor the loop header is reachable from the compile
+        err_fatal = False
+        loops = [l for l in b.loops().values() if ci in l]
+        lp = min(loops, key=len) if loops else None
+        hdr = [x for x in (lp or []) if b.blocks[x]["term"] and b.blocks[x]["term"]["k"] == "call" and callee_name(b.blocks[x]["term"]) == "std::iter::Iterator::next"
+               and all(b.dom_plain(x, e2[0]) for (e2, tb2) in b.back_edges() if tb2 in lp and b.loop_blocks(tb2) == lp)] if lp else []
+        if ok_e and hdr:
+            tgt = b.blocks[ci]["term"]["target"]
+            r = b.reach_between(tgt, removed_edges=set(ok_e))
+            err_fatal = hdr[0] not in r and (disp_sw is None or disp_sw not in r or disp_sw == ci)
+        ctx.inst("C03/D3", "pattern compile outcome is propagated as an error", bool(ok_e) and err_fatal,
+                 "Ok-outcome edge(s) of glob::Pattern::new: %s; the Err outcome reaches neither the rule dispatch nor the next rule: %s" % (ok_e, err_fatal), ct["at"])
         pr = b.trace(ct["args"][0], (), None, {"__flow_all__": lambda t: callee_name(t) in ("models::helpers::VirtualTargetPath::value", "models::layout::rule::ArtifactRule::pattern")})
         ctx.inst("C03/D3", "the compiled pattern is the rule's pattern", bool(pr) and all(l.kind == "call" and callee_name(l.data[1]) == "std::iter::Iterator::next" or
                                                                                           (l.kind == "param") or l.kind == "call" for l in pr),
@@ -171,22 +191,17 @@ def run(ctx):
         # a rule kind K can reach its dispatch arm without the compile's Ok edge only over an edge asserting that the
         # rule is of another kind (REQUIRE takes its argument literally): remove the Ok edges and every edge on which the
         # rule is known to be of a kind != K, then arm K must be unreachable from the loop entry
-        arms = [(e, tb, fa[2]) for (e, tb, fa) in b.all_edge_facts() if fa[0] == "variant" and (fa[3] or "").endswith("ArtifactRule") and not b.blocks[e[0]].get("inst")]
-        loops = [l for l in b.loops().values() if ci in l]
-        lp = min(loops, key=len) if loops else None
-        hdr = [x for x in (lp or []) if b.blocks[x]["term"] and b.blocks[x]["term"]["k"] == "call" and callee_name(b.blocks[x]["term"]) == "std::iter::Iterator::next"
-               and all(b.dom_plain(x, e2[0]) for (e2, tb2) in b.back_edges() if tb2 in lp and b.loop_blocks(tb2) == lp)] if lp else []
+        all_arms = [(e, tb, fa[2]) for (e, tb, fa) in b.all_edge_facts() if fa[0] == "variant" and (fa[3] or "").endswith("ArtifactRule")]
+        arms = [(e, tb, k) for (e, tb, k) in all_arms if e[0] == disp_sw]
         bypass = []
         n_arms = 0
         if hdr and ok_e:
-            rule_root = None
             for K in ("Create", "Delete", "Modify", "Allow", "Disallow", "Match"):
                 targets = [(e, tb) for (e, tb, k) in arms if k == K and e[0] in lp]
-                # dispatch arms: those of the switch with the most arms
                 if not targets:
                     bypass.append(K + " (no arm)")
                     continue
-                removed = set(ok_e) | {e for (e, tb, k) in arms if k != K}
+                removed = set(ok_e) | {e for (e, tb, k) in all_arms if k != K}
                 for (e2, tb2, fa2) in b.all_edge_facts():
                     if fa2[0] == "notvariant" and (fa2[3] or "").endswith("ArtifactRule") and K in fa2[2]:
                         removed.add(e2)
